@@ -344,7 +344,53 @@ def r02_3(ctx):
                'layout (basis function, grid point, derivative) read by the assemblers')
 
 
+DERIV_NAMES = ('deriv', 'derivs', 'numderiv', 'der', 'nder', 'k', 'order')
+
+
+def r02_4(ctx):
+    """(a) A shortcut that returns zeros for high derivative orders may only apply to orders ABOVE the degree: the p-th
+    derivative of a degree-p spline is a non-zero piecewise constant.  The guard is evaluated at order = p.
+    (b) The evaluation kernels contain no absolute tolerance: a comparison of a knot difference (or a quantity built from
+    them) with a small positive literal treats legitimately tiny spans as empty, whatever the scale of the knot vector."""
+    n = 0
+    for fi in ctx.prog.funcs_in(B):
+        for iff in [s for s in own_nodes(fi.node) if isinstance(s, ast.If)]:
+            t = iff.test
+            if not (isinstance(t, ast.Compare) and len(t.ops) == 1):
+                continue
+            sides = [t.left, t.comparators[0]]
+            names = [src(s) for s in sides]
+            isdeg = [s.endswith('.p') or s == 'p' for s in names]
+            isord = [isinstance(s, ast.Name) and s.id in DERIV_NAMES for s in sides]
+            if not ((isdeg[0] and isord[1]) or (isdeg[1] and isord[0])):
+                continue
+            zero_ret = any(isinstance(r, ast.Return) and r.value is not None and ('zeros' in src(r.value) or src(r.value) in ('0', '0.0'))
+                           for r in ast.walk(ast.Module(iff.body, [])))
+            if not zero_ret:
+                continue
+            n += 1
+            # evaluate the guard for order == degree (both sides the same number)
+            op = t.ops[0]
+            taken_at_equal = isinstance(op, (ast.GtE, ast.LtE, ast.Eq))
+            ctx.decide('R02.4', fi.qual, 'zero shortcut `if %s` is not taken for order == degree' % src(t), not taken_at_equal, iff,
+                       'the p-th derivative of a degree-p spline is a non-zero piecewise constant; only orders > p vanish', definite=True)
+    ctx.met('R02.4', B, 'zero shortcuts for high derivative orders: %d found' % n, None, 'none applies at order == degree', where='-', nontrivial=n > 0)
+    cy = ctx.prog.unit(CY)
+    m = 0
+    for fi in [f for f in ctx.prog.functions.values() if f.unit is cy]:
+        for c in [x for x in ast.walk(fi.node) if isinstance(x, ast.Compare) and len(x.ops) == 1]:
+            lits = [s for s in (c.left, c.comparators[0]) if isinstance(s, ast.Constant) and isinstance(s.value, float) and 0 < abs(s.value) < 1e-6]
+            if not lits:
+                continue
+            m += 1
+            ctx.violated('R02.4', fi.qual, 'no absolute tolerance in the evaluation kernel: ' + src(c), c,
+                         'compares with the literal %s: knot spans shorter than that are legitimate (the knot vector may live at any scale); inside '
+                         'such a span the guarded quotient is replaced and all active basis values come out wrong' % src(lits[0]))
+    ctx.met('R02.4', CY, 'comparisons with tiny literals in the Cython kernels: %d' % m, None, 'the kernels are scale invariant', where='-', nontrivial=False)
+
+
 def run(ctx):
+    r02_4(ctx)
     r02_1(ctx)
     r02_2(ctx)
     r02_3(ctx)
